@@ -718,6 +718,15 @@ func harnessB(cfgJSON json.RawMessage) sched.Harness {
 			}
 			img = w.Intended
 		}
+		if cfg.Inner == "recover-recreate" {
+			// The (WAL-mode) database is deleted; the application then creates it again under the same name - with a
+			// rollback journal, as every new database starts - while LiteFS recovers (a role change).
+			if err := P.M.Remove("db"); err != nil {
+				return "harness-error:drop:" + err.Error(), nil
+			}
+			lab.Settle(200 * time.Millisecond)
+			img = nil
+		}
 		if cfg.Inner == "export-hot" {
 			// An application died in the middle of a rollback-journal transaction on the primary: pages already
 			// overwritten in the file, a valid journal next to it. The export must roll that journal back first.
@@ -751,8 +760,11 @@ func harnessB(cfgJSON json.RawMessage) sched.Harness {
 		// Monitor inside every page write of N.
 		e.Observer = func(site string, obj any, a int64, internal bool) {
 			d, ok := obj.(*litefs.DB)
-			if !ok || d != db || site != "db.writepage" {
+			if !ok || d != db || (site != "db.writepage" && !(site == "db.truncate" && cfg.Inner == "recover-recreate")) {
 				return
+			}
+			if site == "db.truncate" {
+				internal = true // the application's creating transaction never truncates: every truncate here is LiteFS's own
 			}
 			need := []lk{litefs.LockTypePending, litefs.LockTypeShared, litefs.LockTypeReserved}
 			if d.Mode() == litefs.DBModeWAL {
@@ -807,6 +819,13 @@ func harnessB(cfgJSON json.RawMessage) sched.Harness {
 			tries := 0
 			wc.Busy = func() bool { tries++; time.Sleep(300 * time.Microsecond); return tries < 30 }
 			defer wc.Close()
+			if cfg.Inner == "recover-recreate" {
+				w := wc.RunRTx(pager.RTx{Create: true, NewSize: 3, Final: "DELETE", Outcome: "commit"}, nil)
+				if w.Err != nil {
+					aErr = "busy"
+				}
+				return
+			}
 			if cfg.WAL {
 				w := wc.RunWTx(pager.WTx{Frames: []uint32{1, 2}, Outcome: "commit"}, img)
 				if w.Err != nil {
@@ -822,7 +841,7 @@ func harnessB(cfgJSON json.RawMessage) sched.Harness {
 		e.Go("I", func(th *sched.Thread) {
 			ctx, cancel := context.WithTimeout(context.Background(), 3*time.Second)
 			defer cancel()
-			if cfg.Inner == "recover" {
+			if cfg.Inner == "recover" || cfg.Inner == "recover-recreate" {
 				_ = N.Store.Recover(ctx)
 				return
 			}
@@ -897,7 +916,7 @@ func TestCheck(t *testing.T) {
 	}
 	var bInfo []any
 	bExec := 0
-	for _, cfg := range []BCfg{{WAL: false, Inner: "recover"}, {WAL: true, Inner: "recover"}, {WAL: false, Inner: "apply"}, {WAL: true, Inner: "apply"}, {WAL: true, Inner: "unhalt"}, {WAL: false, Inner: "export-hot"}} {
+	for _, cfg := range []BCfg{{WAL: false, Inner: "recover"}, {WAL: true, Inner: "recover"}, {WAL: false, Inner: "apply"}, {WAL: true, Inner: "apply"}, {WAL: true, Inner: "unhalt"}, {WAL: false, Inner: "export-hot"}, {WAL: true, Inner: "recover-recreate"}} {
 		var tot sched.Totals
 		sched.Distributed(t, run, pool, reg, "c11b", cfg, bound, 3, 5*time.Minute, &tot)
 		bExec += tot.Executions
